@@ -3,7 +3,7 @@
    theorems through the wiring of the real server, which the end-to-end parts of the C04 / C19 / C06 checks exercise
    (humphrey_server::server::main started from configuration texts, model = serve_text on the same text). *)
 From Hv Require Import Prelude Bytes TablesHttp TablesConfig Http Krauss Routing RoutingProofs Blacklist StaticFs StaticFsProofs
-  Config Server ServerProofs.
+  Config Server ServerProofs ServerLoadedProofs.
 Open Scope N_scope.
 
 (* C15: the server's answers are a function of the loaded configuration: two texts that load to the same configuration
@@ -14,4 +14,17 @@ Theorem C15_server_same_config_same_answers :
     serve_text ipp fs files file1 conf1 p req = serve_text ipp fs files file2 conf2 p req.
 Proof. exact serve_text_same_config. Qed.
 
+(* what validation buys at run time: a configuration that Config::load accepted gives every route the target its type
+   needs (C15_route_needs_target), so request_handler's `unwrap`s of route.path / route.load_balancer /
+   route.websocket_proxy and its (host, route) index lookups never fail — for any request whatever, upgrade or not *)
+Theorem C15_loaded_config_well_targeted :
+  forall ipp files file conf c, load ipp files file conf = ROk c -> config_well_targeted c.
+Proof. exact loaded_config_well_targeted. Qed.
+
+Theorem C15_loaded_server_never_hits_missing_target :
+  forall ipp fs files file conf p req, serve_text ipp fs files file conf p req <> Some SPanic.
+Proof. exact loaded_server_never_spanic. Qed.
+
 Print Assumptions C15_server_same_config_same_answers.
+Print Assumptions C15_loaded_config_well_targeted.
+Print Assumptions C15_loaded_server_never_hits_missing_target.
